@@ -98,10 +98,14 @@ inline void applyOptions(GMGPolar& s, const Cfg& k)
     s.absoluteTolerance(k.abstol);
     s.relativeTolerance(k.reltol);
     s.write_grid_file(k.gridfile == 1 || k.gridfile == 5);
-    s.load_grid_file(k.gridfile == 2 || k.gridfile == 3 || k.gridfile == 4);
+    s.load_grid_file(k.gridfile == 2 || k.gridfile == 3 || k.gridfile == 4 || k.gridfile == 6);
     if (k.gridfile == 1 || k.gridfile == 2) {
         s.file_grid_radii("solver_grid_radii.txt");
         s.file_grid_angles("solver_grid_angles.txt");
+    }
+    else if (k.gridfile == 6) {
+        s.file_grid_radii("nonuniform_grid_radii.txt");
+        s.file_grid_angles("nonuniform_grid_angles.txt");
     }
     else if (k.gridfile == 3) {
         s.file_grid_radii("no_such_radii_file.txt");
@@ -164,6 +168,32 @@ inline void applyOptionsDelta(GMGPolar& s, const Cfg& p, const Cfg& k)
         s.absoluteTolerance(k.abstol);
     if (p.reltol != k.reltol)
         s.relativeTolerance(k.reltol);
+    if (p.verbose != k.verbose)
+        s.verbose(k.verbose);
+    if (p.paraview != k.paraview)
+        s.paraview(k.paraview != 0);
+    if (p.gridfile != k.gridfile) {
+        const bool wantWrite = k.gridfile == 1 || k.gridfile == 5;
+        const bool wantLoad  = k.gridfile == 2 || k.gridfile == 3 || k.gridfile == 4 || k.gridfile == 6;
+        const bool hadWrite  = p.gridfile == 1 || p.gridfile == 5;
+        const bool hadLoad   = p.gridfile == 2 || p.gridfile == 3 || p.gridfile == 4 || p.gridfile == 6;
+        if (wantWrite != hadWrite)
+            s.write_grid_file(wantWrite);
+        if (wantLoad != hadLoad)
+            s.load_grid_file(wantLoad);
+        if (k.gridfile == 1 || k.gridfile == 2) {
+            s.file_grid_radii("solver_grid_radii.txt");
+            s.file_grid_angles("solver_grid_angles.txt");
+        }
+        else if (k.gridfile == 6) {
+            s.file_grid_radii("nonuniform_grid_radii.txt");
+            s.file_grid_angles("nonuniform_grid_angles.txt");
+        }
+        else if (k.gridfile == 3) {
+            s.file_grid_radii("no_such_radii_file.txt");
+            s.file_grid_angles("no_such_angles_file.txt");
+        }
+    }
 }
 
 inline std::unique_ptr<GMGPolar> makeSolver(const Cfg& k)
@@ -173,6 +203,46 @@ inline std::unique_ptr<GMGPolar> makeSolver(const Cfg& k)
     if (k.exact)
         s->setSolution(std::move(p.exact));
     applyOptions(*s, k);
+    if (k.gridfile == 6) {
+        // a NON-UNIFORM grid of the configured size, loaded from files: radii with spacings cycling through
+        // {1, 1.35, 0.8, 1.15, 0.9}, angles with half-circle spacings cycling through {1, 1.25, 0.85} and mirrored (antipodal pairs)
+        const int nr = (1 << k.nr_exp) * (1 << k.div2) + 1;
+        int nte      = k.ntheta_exp;
+        if (nte < 0)
+            nte = k.nr_exp + 1;
+        const int nt = (1 << nte) * (1 << k.div2);
+        std::vector<double> w(nr - 1), radii(nr);
+        const double fr[5] = {1.0, 1.35, 0.8, 1.15, 0.9};
+        double sum         = 0;
+        for (int i = 0; i + 1 < nr; i++)
+            sum += (w[i] = fr[i % 5]);
+        radii[0] = k.R0;
+        for (int i = 0; i + 1 < nr; i++)
+            radii[i + 1] = radii[i] + (k.Rmax - k.R0) * w[i] / sum;
+        radii[nr - 1] = k.Rmax;
+        std::vector<double> angles(nt + 1), v(nt / 2);
+        const double ft[3] = {1.0, 1.25, 0.85};
+        sum                = 0;
+        for (int j = 0; j < nt / 2; j++)
+            sum += (v[j] = ft[j % 3]);
+        angles[0] = 0.0;
+        for (int j = 0; j < nt / 2; j++)
+            angles[j + 1] = angles[j] + M_PI * v[j] / sum;
+        angles[nt / 2] = M_PI;
+        for (int j = 0; j < nt / 2; j++)
+            angles[nt / 2 + j] = angles[j] + M_PI;
+        angles[nt] = 2 * M_PI;
+        FILE* fr_ = fopen("nonuniform_grid_radii.txt", "w");
+        FILE* ft_ = fopen("nonuniform_grid_angles.txt", "w");
+        if (!fr_ || !ft_)
+            throw std::runtime_error("harness: cannot write the grid files");
+        for (double x : radii)
+            fprintf(fr_, "%.17g\n", x);
+        for (double x : angles)
+            fprintf(ft_, "%.17g\n", x);
+        fclose(fr_);
+        fclose(ft_);
+    }
     if (k.gridfile == 2) {
         // the files to load are written by another solver object with the same options (write_grid_file), in the working directory
         Cfg kw      = k;
